@@ -42,6 +42,10 @@ NTOK = 96
 # --------------------------------------------------------------------------
 # tokens <-> python objects
 # --------------------------------------------------------------------------
+# leaves that are == to another leaf of a different type (classes: Lib.C08_Py.leaf_cls); token 1 is False
+_EQ_LEAVES = {64: 2, 65: 2.0, 66: 1, 67: True, 68: 1.0, 69: 0, 70: 0.0}
+
+
 def leaf(n):
     if n == 0:
         return None
@@ -51,6 +55,8 @@ def leaf(n):
         return ""
     if n == 3:
         return b""
+    if n in _EQ_LEAVES:
+        return _EQ_LEAVES[n]
     f = n % 4
     if f == 0:
         return 1000 + n
@@ -467,7 +473,10 @@ def gen_key(rng):
 
 
 def gen_leaf(rng):
-    return rng.randrange(24) if rng.random() < 0.8 else rng.randrange(64)
+    r = rng.random()
+    if r < 0.15:
+        return rng.choice([1, 64, 65, 66, 67, 68, 69, 70])      # equal-but-different leaves
+    return rng.randrange(24) if r < 0.85 else rng.randrange(64)
 
 
 def gen_prog(rng):
